@@ -123,7 +123,7 @@ pub fn install_panic_hook() {
 /// computed, anything else is a machinery error
 pub fn report_abort(ctx: &Ctx) {
     let (loc, msg) = take_panic();
-    if location_is_subject(&loc) {
+    if is_subject_panic(&loc, &msg) {
         ctx.violation("setup", 0, Fail::new(format!("subject panicked at {} while the check prepared its operands: {}", loc, msg)));
     } else {
         ctx.machinery(format!("harness panicked at {}: {}", loc, msg));
@@ -134,6 +134,11 @@ fn take_panic() -> (String, String) {
     LAST_PANIC.with(|p| p.borrow_mut().take()).unwrap_or_default()
 }
 
+/// a panic that is a finding about the subject: raised inside the subject's code, or raised by the harness's conversion
+/// layer because the subject handed out a value that violates a representation invariant
+fn is_subject_panic(loc: &str, msg: &str) -> bool {
+    location_is_subject(loc) || msg.starts_with(crate::conv::NONCANONICAL)
+}
 /// true if a panic location belongs to the subject (the repository or the field derive it uses).
 fn location_is_subject(loc: &str) -> bool {
     loc.starts_with("/repo/")
@@ -394,7 +399,7 @@ impl Ctx {
                     detail: json!({"case_i": describe(i), "case_j": describe(j), "observed": fl.detail}),
                 }),
                 Err((loc, msg)) => {
-                    if location_is_subject(&loc) {
+                    if is_subject_panic(&loc, &msg) {
                         g.violations.push(Violation {
                             sub: hsub.to_string(),
                             index: i * n + j,
@@ -447,7 +452,7 @@ impl Ctx {
             None => {}
             Some((pos, Ok(fl))) => g.violations.push(Violation { sub: hsub.to_string(), index: i * n + j, desc: format!("evaluation #{} of the call history [i, j, i] fails: {}", pos + 1, fl.desc), detail: json!({"case_i": describe(i), "case_j": describe(j), "observed": fl.detail}) }),
             Some((pos, Err((loc, msg)))) => {
-                if location_is_subject(&loc) {
+                if is_subject_panic(&loc, &msg) {
                     g.violations.push(Violation { sub: hsub.to_string(), index: i * n + j, desc: format!("evaluation #{} of the call history [i, j, i] panicked in the subject at {}: {}", pos + 1, loc, msg), detail: json!({"case_i": describe(i), "case_j": describe(j)}) });
                 } else {
                     g.machinery.push(format!("harness panic in {} at {}: {}", hsub, loc, msg));
@@ -510,7 +515,7 @@ impl Ctx {
                                 }
                                 Err(_) => {
                                     let (loc, msg) = take_panic();
-                                    if location_is_subject(&loc) {
+                                    if is_subject_panic(&loc, &msg) {
                                         if l.viols.len() < 8 {
                                             l.viols.push(Violation {
                                                 sub: sub.to_string(),
@@ -590,7 +595,7 @@ impl Ctx {
             Ok(Err(fl)) => g.violations.push(Violation { sub: sub.to_string(), index: i, desc: fl.desc, detail: json!({"case": describe(i), "observed": fl.detail}) }),
             Err(_) => {
                 let (loc, msg) = take_panic();
-                if location_is_subject(&loc) {
+                if is_subject_panic(&loc, &msg) {
                     g.violations.push(Violation { sub: sub.to_string(), index: i, desc: format!("subject panicked at {}: {}", loc, msg), detail: describe(i) });
                 } else {
                     g.machinery.push(format!("harness panic in {} case {} at {}: {}", sub, i, loc, msg));
